@@ -81,6 +81,9 @@ THOROUGH_EXTRA = {
 }
 
 
+PROBE_ERRORS = []
+
+
 def run_all_probes(pid, seed, tier='quick'):
     """Thorough tier: the whole probe catalogue of the property is replayed against the real code (conformance run of the
     assumed contracts A9/A10/A11 and of the extraction).  Returns (n_run, [reproduced...])."""
@@ -97,6 +100,9 @@ def run_all_probes(pid, seed, tier='quick'):
         rc, out = run_scenario(sc, timeout=1800 if tier == 'thorough' else 300)
         if rc == 1:
             bad.append(dict(scenario=sc, output=out[:1500]))
+        elif rc != 0:
+            # the scenario itself could not be run (malformed probe, not a verdict about the code): reported, never a violation
+            PROBE_ERRORS.append(dict(scenario=sc, output=out[:300]))
     return n, bad
 
 
